@@ -262,9 +262,23 @@ impl<A: TreeApi> TreeSut<A> {
     fn slots_of(&self, state: &[u8]) -> usize {
         (state.len() - A::HDR) / self.rec_size()
     }
-    fn contents(&self, state: &[u8]) -> BTreeMap<i128, i128> {
-        let d = decode::<A>(state);
-        d.check().map(|v| v.into_iter().map(|(_, k, v)| (k, v)).collect()).unwrap_or_default()
+    /// What the API itself reports about a state (read-only view, on a private copy):
+    /// `get` for every key of the universe, `len`, `capacity`. `None` if a query panics.
+    fn api_contents(&self, state: &[u8]) -> Option<(BTreeMap<i128, i128>, usize, usize)> {
+        let mut copy = ABuf::new(state, 2, 0x11);
+        let r = guarded(|| {
+            let mut m = BTreeMap::new();
+            for k in &self.keys {
+                let r = A::call(copy.bytes_mut(), &Op::new("rget", &[*k]));
+                if let Some(v) = r.strip_prefix("some ") {
+                    m.insert(*k, v.parse::<i128>().unwrap());
+                }
+            }
+            let len: usize = A::call(copy.bytes_mut(), &Op::new("rlen", &[])).parse().unwrap();
+            let cap: usize = A::call(copy.bytes_mut(), &Op::new("rcap", &[])).parse().unwrap();
+            (m, len, cap)
+        });
+        r.ok()
     }
     pub fn parse(&self, l: &str) -> Option<Op> {
         let mut it = l.split_whitespace();
@@ -405,29 +419,47 @@ impl<A: TreeApi> Sut for TreeSut<A> {
     }
     fn oracle(&self, pre: &[u8], op: &Op, out: &OpOut, post: &[u8]) -> Vec<Finding> {
         let mut f = vec![];
+        let prop_of = |name: &str| match name {
+            "fill" => "C07",
+            "open" | "ext" | "cap" | "rcap" => "C08",
+            _ => "C01",
+        };
         if out.panic.is_some() {
+            // besides C12 (reported by the engine) a panic is a wrong answer for the operation's own property
+            if op.name != "init" {
+                f.push(Finding { property: prop_of(op.name), what: format!("`{}` panicked instead of answering: {}", op.text(), out.panic.clone().unwrap()) });
+            }
             return f;
         }
         let dp = decode::<A>(pre);
         let dq = decode::<A>(post);
         // C06 / C10: structure of the post state as read by the independent decoder
         let post_entries = match dq.check() {
-            Ok(e) => e,
+            Ok(e) => Some(e),
             Err(e) => {
                 let p = if e.contains("unbalanced") || e.contains("height register") { "C06" } else { "C10" };
                 f.push(Finding { property: p, what: format!("after `{}`: {}", op.text(), e) });
-                return f;
+                None
             }
         };
-        let pre_entries = match dp.check() {
-            Ok(e) => e,
-            Err(_) => return f,
+        let pre_entries = dp.check().ok();
+        // C01 & co: what the API reports before and after, against the reference map
+        let Some((m, mlen, _mcap)) = self.api_contents(pre) else { return f };
+        let Some((q, qlen, qcap)) = self.api_contents(post) else {
+            f.push(Finding { property: prop_of(op.name), what: format!("after `{}` a read-only query panics", op.text()) });
+            return f;
         };
-        let m: BTreeMap<i128, i128> = pre_entries.iter().map(|(_, k, v)| (*k, *v)).collect();
-        let q: BTreeMap<i128, i128> = post_entries.iter().map(|(_, k, v)| (*k, *v)).collect();
+        // C10: the decoder recovers exactly the contents the API reports
+        if let Some(pe) = &post_entries {
+            let dm: BTreeMap<i128, i128> = pe.iter().filter(|(_, k, _)| self.keys.contains(k)).map(|(_, k, v)| (*k, *v)).collect();
+            if dm != q || pe.len() != qlen {
+                f.push(Finding { property: "C10", what: format!("after `{}` the format decoder finds {:?} ({} entries) but the API reports {:?} (len {})", op.text(), dm, pe.len(), q, qlen) });
+            }
+        }
         let mut exp = m.clone();
-        let cap = dp.cap.max(if matches!(self.kind(op), Kind::Mutating) && op.name != "ext" && op.name != "init" { dp.slots } else { 0 });
-        let full = m.len() >= cap;
+        let opened = matches!(self.kind(op), Kind::Mutating) && op.name != "ext" && op.name != "init";
+        let cap = dp.cap.max(if opened { dp.slots } else { 0 });
+        let full = mlen >= cap;
         let k = op.args.first().copied().unwrap_or(0);
         let expected: Option<String> = match op.name {
             "ins" => {
@@ -450,16 +482,16 @@ impl<A: TreeApi> Sut for TreeSut<A> {
                 }
             }
             "low" | "rlow" => Some(opt(m.keys().next().copied())),
-            "len" | "rlen" => Some(m.len().to_string()),
+            "len" | "rlen" => Some(mlen.to_string()),
             "cap" => Some(cap.to_string()),
             "rcap" => Some(dp.cap.to_string()),
             "full" => Some(full.to_string()),
-            "rfull" => Some((m.len() >= dp.cap).to_string()),
-            "empty" | "rempty" => Some(m.is_empty().to_string()),
+            "rfull" => Some((mlen >= dp.cap).to_string()),
+            "empty" | "rempty" => Some((mlen == 0).to_string()),
             "fill" => {
                 // stops at the first refusal: the tree is full or the probe key is already present
                 let mut n = 0usize;
-                while n < cap - m.len() && (n as i128) < op.args[1] && !m.contains_key(&(op.args[0] + n as i128)) {
+                while n < cap.saturating_sub(mlen) && (n as i128) < op.args[1] && !m.contains_key(&(op.args[0] + n as i128)) {
                     n += 1;
                 }
                 Some(n.to_string())
@@ -470,18 +502,14 @@ impl<A: TreeApi> Sut for TreeSut<A> {
             }
             _ => None,
         };
-        let prop = match op.name {
-            "fill" => "C07",
-            "open" | "ext" | "cap" | "rcap" => "C08",
-            _ => "C01",
-        };
+        let prop = prop_of(op.name);
         if let Some(e) = expected {
             if e != out.result {
                 f.push(Finding { property: prop, what: format!("`{}` returned {} but the reference map gives {}", op.text(), out.result, e) });
             }
         } else if op.name == "ins" {
             match out.result.strip_prefix("some ").and_then(|s| s.parse::<usize>().ok()) {
-                None => f.push(Finding { property: "C01", what: format!("`{}` refused although the key is absent and {} of {} slots are used", op.text(), m.len(), cap) }),
+                None => f.push(Finding { property: "C01", what: format!("`{}` refused although the key is absent and {} of {} slots are used", op.text(), mlen, cap) }),
                 Some(i) => {
                     if i == 0 || i > dq.slots || dq.recs[i - 1].3 != k || dq.recs[i - 1].4 != op.args[1] {
                         f.push(Finding { property: "C10", what: format!("`{}` returned index {} but that record does not hold the entry", op.text(), i) });
@@ -491,22 +519,27 @@ impl<A: TreeApi> Sut for TreeSut<A> {
         }
         if op.name != "init" && q != exp {
             let p = if op.name == "open" || op.name == "ext" { "C08" } else { "C01" };
-            f.push(Finding { property: p, what: format!("after `{}` contents are {:?}, the reference map has {:?}", op.text(), q, exp) });
+            f.push(Finding { property: p, what: format!("after `{}` the API reports contents {:?}, the reference map has {:?}", op.text(), q, exp) });
+        }
+        if op.name != "init" && qlen != exp.len() {
+            f.push(Finding { property: prop, what: format!("after `{}` len() is {} but the reference map has {} entries", op.text(), qlen, exp.len()) });
         }
         // C08: growth adds exactly the new slots
-        if op.name == "open" && dp.slots > dp.cap && dq.cap != dp.slots {
-            f.push(Finding { property: "C08", what: format!("re-opening {} records with capacity {} gives capacity {}", dp.slots, dp.cap, dq.cap) });
+        if op.name == "open" && dp.slots > dp.cap && qcap != dp.slots {
+            f.push(Finding { property: "C08", what: format!("re-opening {} records with capacity {} gives capacity {}", dp.slots, dp.cap, qcap) });
         }
         if op.name == "open" && dp.slots <= dp.cap && pre != post {
             f.push(Finding { property: "C04", what: "re-opening a buffer whose size matches its capacity changed bytes".into() });
         }
         // C10: a live entry never moves to another record
-        if op.name != "init" {
-            let before: BTreeMap<i128, usize> = pre_entries.iter().map(|(i, k, _)| (*k, *i)).collect();
-            for (i, k2, _) in &post_entries {
-                if let Some(j) = before.get(k2) {
-                    if j != i {
-                        f.push(Finding { property: "C10", what: format!("`{}` moved key {} from record {} to record {}", op.text(), k2, j, i) });
+        if let (Some(pe), Some(qe)) = (&pre_entries, &post_entries) {
+            if op.name != "init" {
+                let before: BTreeMap<i128, usize> = pe.iter().map(|(i, k, _)| (*k, *i)).collect();
+                for (i, k2, _) in qe {
+                    if let Some(j) = before.get(k2) {
+                        if j != i {
+                            f.push(Finding { property: "C10", what: format!("`{}` moved key {} from record {} to record {}", op.text(), k2, j, i) });
+                        }
                     }
                 }
             }
